@@ -58,7 +58,7 @@ class Net:
         import quimb.tensor as qtn
 
         idx = list(range(len(self.tensors))) if order is None else list(order)
-        dt = complex if self.kind == "cplx" else float
+        dt = complex if any(np.iscomplexobj(a) for _, a in self.tensors) else float
         ts = []
         for i in idx:
             ix, a = self.tensors[i]
@@ -102,14 +102,23 @@ def pos_of_tensor(t):
     raise KeyError("tensor without position tag")
 
 
-def random_tree_edges(rng, n, shape="random"):
+def random_tree_edges(rng, n, shape="random", maxdeg=4):
+    """a tree on 0..n-1 with bounded degree (a tensor has one leg per neighbour)"""
     if shape == "chain":
         return [(i, i + 1) for i in range(n - 1)]
-    if shape == "star":
-        return [(0, i) for i in range(1, n)]
     if shape == "binary":
         return [((i - 1) // 2, i) for i in range(1, n)]
-    return [(int(rng.integers(0, i)), i) for i in range(1, n)]
+    if shape == "star":      # a hub of maxdeg legs, the rest hangs off the legs as chains
+        return [(0 if i <= maxdeg else i - maxdeg, i) for i in range(1, n)]
+    deg = [0] * n
+    edges = []
+    for i in range(1, n):
+        cands = [j for j in range(i) if deg[j] < maxdeg]
+        j = cands[int(rng.integers(0, len(cands)))]
+        deg[i] += 1
+        deg[j] += 1
+        edges.append((j, i))
+    return edges
 
 
 def _data(rng, shape, kind):
@@ -150,11 +159,10 @@ def gen_dense(rng, n, kind, shape="random", dmax=3, phys=False, forest=False, sc
                 inds[i].append(x)
                 ph.append(x)
     ts = []
-    fkind = kind if kind != "float" or not phys else "float"
     for i in range(n):
         ix = list(inds[i])
         rng.shuffle(ix)
-        ts.append((ix, _data(rng, [dims[x] for x in ix], fkind)))
+        ts.append((ix, _data(rng, [dims[x] for x in ix], kind)))
     name = ["t%d" % (i + 1) for i in range(n)]
     if scalar:
         ts.append(((), np.array(float(rng.integers(2, 4)))))
@@ -207,7 +215,7 @@ def gen_hyper(rng, nt, kind, dmax=2, uniform_dim=True, scalar=False):
 
 def gen_lazy(rng, nsites, kind, phys=False, shape="random"):
     """sites of one or two tensors, one or two bonds between neighbouring sites"""
-    edges = random_tree_edges(rng, nsites, shape)
+    edges = random_tree_edges(rng, nsites, shape, maxdeg=3)
     parts = {}   # site -> list of label lists
     dims = {}
     ph = []
@@ -399,6 +407,10 @@ class Ref:
         """a vanishing exact message or value: BP's normalisations are singular there"""
         for m in self.all_messages().values():
             if not np.all(np.isfinite(m)) or np.linalg.norm(m) < 1e-9 or abs(m.sum()) < 1e-9:
+                return True
+            # hyper flavours divide the product of all messages at a label by each message ("smudge"):
+            # an entry that cancels to exactly zero (signed integer data) is outside that trick
+            if self.net.gk == "hyper" and np.min(np.abs(m)) < 1e-9 * np.linalg.norm(m):
                 return True
         return abs(self.value()) < 1e-9
 
